@@ -32,6 +32,10 @@ pub struct Scn {
     /// wait-for-start mode: the run begins paused, `ready` is emitted, `cmd:start` arrives at this iteration
     #[serde(default)]
     pub start_at: Option<u64>,
+    /// control lines while the program runs: (iteration, 0) = a redundant `cmd:start`; (iteration, n > 0) = `cmd:pause` there
+    /// and `cmd:start` n iterations later. Time does not pass while paused; nothing else may change
+    #[serde(default)]
+    pub episodes: Vec<(u64, u32)>,
 }
 
 #[derive(Clone, Debug, PartialEq)]
@@ -176,16 +180,30 @@ fn reference_run(scn: &Scn, g: &Option<Guest>, charges: &[u64]) -> Result<RefTra
 }
 
 fn start_events(scn: &Scn) -> Vec<Event> {
-    match scn.start_at {
+    let mut ev = match scn.start_at {
         Some(k) => vec![Event { trig: Trigger::Iter(k), act: Action::Lines(vec!["cmd:start".to_string()]) }],
         None => vec![],
+    };
+    let base = scn.start_at.unwrap_or(0) + 1;
+    for (k, n) in &scn.episodes {
+        if *n == 0 {
+            ev.push(Event { trig: Trigger::Iter(base + k), act: Action::Lines(vec!["cmd:start".to_string()]) });
+        } else {
+            ev.push(Event { trig: Trigger::Iter(base + k), act: Action::Lines(vec!["cmd:pause".to_string()]) });
+            ev.push(Event { trig: Trigger::Iter(base + k + *n as u64), act: Action::Lines(vec!["cmd:start".to_string()]) });
+        }
     }
+    ev
+}
+
+fn paused_budget(scn: &Scn) -> u64 {
+    scn.episodes.iter().map(|e| e.1 as u64 + 2).sum::<u64>()
 }
 
 /// Charges of a real run under the fast clock: one per executed instruction.
 fn observe_charges(scn: &Scn, g: &Option<Guest>) -> Result<Vec<u64>, Failure> {
     let gg = g.clone().unwrap_or_else(empty_guest);
-    let cfg = SysCfg { wait_start: scn.start_at.is_some(), clock: ClockModel::Fast, clock_seed: 0, step_cap: scn.step_cap + 8 + scn.start_at.unwrap_or(0), print_msgs: false, print_opcode: false };
+    let cfg = SysCfg { wait_start: scn.start_at.is_some(), clock: ClockModel::Fast, clock_seed: 0, step_cap: scn.step_cap + 8 + scn.start_at.unwrap_or(0) + paused_budget(scn), print_msgs: false, print_opcode: false };
     let scn2 = scn.clone();
     let (run, _) = run_sys(&gg, &cfg, &start_events(scn), NullObserver, true, move |sim| {
         if let Some(path) = &scn2.elf {
@@ -326,7 +344,7 @@ struct RunSummary {
 
 fn real_run(scn: &Scn, g: &Option<Guest>, reft: &std::rc::Rc<RefTrace>, clock: &(ClockModel, u64), stats: &mut Stats) -> Result<RunSummary, Failure> {
     let gg = g.clone().unwrap_or_else(empty_guest);
-    let cfg = SysCfg { wait_start: scn.start_at.is_some(), clock: clock.0.clone(), clock_seed: clock.1, step_cap: scn.step_cap + 8 + scn.start_at.unwrap_or(0), print_msgs: scn.print_msgs, print_opcode: scn.print_opcode };
+    let cfg = SysCfg { wait_start: scn.start_at.is_some(), clock: clock.0.clone(), clock_seed: clock.1, step_cap: scn.step_cap + 8 + scn.start_at.unwrap_or(0) + paused_budget(scn), print_msgs: scn.print_msgs, print_opcode: scn.print_opcode };
     let obs = LoopObserver {
         reft: reft.clone(),
         idx: 0,
@@ -509,7 +527,7 @@ impl Property for C13 {
         let every = if tier == Tier::Quick { 400 } else { 2000 };
         if index % every < EXAMPLES.len() as u64 {
             let (p, a) = EXAMPLES[(index % every) as usize];
-            return Scn { guest: None, elf: Some(p.to_string()), args: a.to_string(), clocks, step_cap: 30_000_000, print_msgs: false, print_opcode: false, start_at: None };
+            return Scn { guest: None, elf: Some(p.to_string()), args: a.to_string(), clocks, step_cap: 30_000_000, print_msgs: false, print_opcode: false, start_at: None, episodes: vec![] };
         }
         // "exact landing": a guest whose cumulative state count equals 6,000,000 exactly at an instruction boundary
         // (every charge is a multiple of 3 and mostly of 6, so 2M and 4M cannot be hit exactly, 6M can). The padding is
@@ -528,7 +546,7 @@ impl Property for C13 {
                     blocks.push(Block::Delay(60_000));
                 }
                 let guest = GuestSpec { blocks, handlers: vec![], code_dram: false, stack_dram: false, data_dram: false, vec_top: 0, sub_delay: 1, init_ccr: None, stack_off: 0, exit_style: 0 };
-                let scn = Scn { guest: Some(guest), elf: None, args: String::new(), clocks: clocks.clone(), step_cap: 1_000_000, print_msgs: false, print_opcode: false, start_at: None };
+                let scn = Scn { guest: Some(guest), elf: None, args: String::new(), clocks: clocks.clone(), step_cap: 1_000_000, print_msgs: false, print_opcode: false, start_at: None, episodes: vec![] };
                 if let Ok(g) = scn.guest.as_ref().unwrap().assemble() {
                     if let Ok(t) = reference_run(&scn, &Some(g), &[]) {
                         let mut sum = 0u64;
@@ -566,7 +584,7 @@ impl Property for C13 {
                     blocks.push(Block::Raw(vec![0xf0, 0x00])); // MOV.B #0,R0H: 2 states
                 }
                 let guest = GuestSpec { blocks, handlers: vec![], code_dram: false, stack_dram: false, data_dram: false, vec_top: 0, sub_delay: 1, init_ccr: None, stack_off: 0, exit_style: style };
-                Scn { guest: Some(guest), elf: None, args: String::new(), clocks: clocks.clone(), step_cap: 1_000_000, print_msgs: false, print_opcode: false, start_at: None }
+                Scn { guest: Some(guest), elf: None, args: String::new(), clocks: clocks.clone(), step_cap: 1_000_000, print_msgs: false, print_opcode: false, start_at: None, episodes: vec![] }
             };
             // measure once, then solve for the second loop's length and the padding
             let probe = build(40_000, 0);
@@ -696,7 +714,9 @@ impl Property for C13 {
         let print_msgs = rng.chance(1, 8);
         let print_opcode = est < 4000 && rng.chance(1, 6);
         let start_at = if rng.chance(1, 8) { Some(rng.below(6)) } else { None };
-        Scn { guest: Some(guest), elf: None, args: String::new(), clocks, step_cap: est * 4 + 50_000, print_msgs, print_opcode, start_at }
+        // one run in five: pause / start episodes and redundant starts somewhere in the program
+        let episodes: Vec<(u64, u32)> = if rng.chance(1, 5) { (0..rng.range(1, 3)).map(|_| (rng.below(est.max(2)), if rng.chance(1, 3) { 0 } else { rng.range(1, 20) as u32 })).collect() } else { vec![] };
+        Scn { guest: Some(guest), elf: None, args: String::new(), clocks, step_cap: est * 4 + 50_000, print_msgs, print_opcode, start_at, episodes }
     }
 
     fn execute(scn: &Scn, stats: &mut Stats) -> Verdict {
